@@ -25,6 +25,12 @@ CHECKS = {
  "C09": dict(cat="exploration", design="§3 C09", technique="bounded exhaustive enumeration per axis (constructor index, field shapes <= 2 deviations, boundary integers, byte lengths) with an independent Plutus-Data reader as oracle",
    text="Programs generated from source run through the whole pipeline; the inline datum / redeemer bytes of the emitted transaction are decoded with a Plutus-Data reader written from the plutus-core CDDL on top of an independent CBOR reader and compared with the value the expression denotes. Complete per axis: (N, i) constructor pairs, every +-2^k / +-(2^k+-1) integer, every byte length 0..100, all field-shape executions with <= 2 deviations, each in datum and redeemer position.",
    note="Expected encoding conventions (records = Constr 0, Bool = Constr 0/1, unit = Constr 0, strings as bytes) are taken from the language documentation; my reader is the trusted decoder."),
+ "C08": dict(cat="exploration", design="§3 C08", technique="bounded exhaustive enumeration of relative orders of inputs / policies / reward accounts, oracle = ledger-sorted redeemer map",
+   text="Constant TIRs with 1..4 script inputs (single and 2-UTxO, both set iteration orders) over a ref pool whose txid and index orders disagree (all injective assignments), all sequences of 0..3 mints/burns over 3 policies and of 0..2 withdrawals over 3 reward accounts are compiled; the decoded witness-set map (tag, index) -> data must equal the map obtained by sorting the source items as the ledger does.",
+   note="One redeemer value per block / policy / account; certificates and votes not covered; quick tier explores each axis completely against fixed configurations of the other two, thorough the full product."),
+ "C10": dict(cat="exploration", design="§3 C10", technique="exhaustive enumeration of all 2^17 optional-feature subsets of a constant template, payload re-decoded and hashes recomputed independently",
+   text="Every subset of 17 optional transaction features is compiled; the payload must decode with pallas as Conway, its body bytes (located by an independent CBOR reader) must hash to the reported hash, auxiliary and script data hashes must be present exactly when needed and equal digests recomputed from the payload (language views re-encoded from the configured cost model), set-like fields must have no duplicate or empty entries, network id must match, and recompilation (same compiler, fresh compiler, other iteration order of a 2-UTxO set) must be byte-identical.",
+   note="pallas decoding and blake2b are trusted; a compile error is accepted only for the one feature combination where a redeemer guards a policy whose mint and burn cancel."),
 }
 PENDING = {}
 
